@@ -40,7 +40,9 @@ add('C02',
     "generated widths / anisotropy / mu_r / epsilon_r / s the dense matrix "
     "of the matrix-free kernel is compared entrywise with C^T M_f C + s mu0 "
     "M_e (checker-side assembly), plus symmetry, gradient null space, "
-    "solver.residual and jit-vs-py_func agreement. Complete for the linear "
+    "solver.residual, jit-vs-py_func agreement, and a model re-use oracle "
+    "(other domain, repeat, setters, in-place edits; VolumeModel must not "
+    "modify the model). Complete for the linear "
     "map on each generated coefficient set; coefficient space is sampled.",
     "Trusted: checker-side assembly vp/refop.py (no code shared with "
     "emg3d.core), numpy/scipy; tolerance 1e4 eps relative to the sum of "
@@ -113,17 +115,21 @@ add('C15',
 
 add('C07',
     "Hypothesis over survey x mapping x anisotropy x noise model x "
-    "perturbation direction; oracle: central finite differences of the "
-    "misfit of fresh simulations converge at second order to "
-    "<gradient, direction>; misfit vs the checker's own formula",
+    "perturbation direction; oracle: central finite differences (+ Richardson) "
+    "of the misfit of forward data from DIRECT sparse solves of the "
+    "checker-assembled operator converge to <gradient, direction>; "
+    "misfit vs the checker's own formula",
     "Exploration: generated small stretched problems with mixed source "
     "and receiver types (incl. source-relative and magnetic receivers, "
     "wires, dipoles in all coordinate formats), NaN-masked observations and "
     "all noise-parameter shapes; the adjoint-state gradient is compared "
-    "with FD of the reported misfit at steps 1e-2..1e-4 (threshold 1e-6 "
-    "|g||d|, measured ~1e-9), solver tolerance 1e-11.",
-    "Trusted: emg3d forward solves (certified separately by C01) for the "
-    "FD side; cases with a non-converged solve are inconclusive. Magnetic "
+    "with FD of the misfit (checker's formula on direct-solve data, steps "
+    "2e-2, 1e-2, 1e-3 + Richardson; threshold 1e-5 |g||d|, measured "
+    "median 2e-9, max 8e-7); whole source-frequency pairs / receivers "
+    "without data are generated too.",
+    "Trusted: vp/refop.py + emg3d's source vectors and receiver sampling "
+    "(C09/C10) for the FD side; cases where emg3d's own data differ from "
+    "the direct data by > 1e-6 or a solve fails are inconclusive. Magnetic "
     "sources are generated in the 3rd..3rd-last cell (supported away from "
     "the outermost cells).")
 
@@ -146,19 +152,19 @@ add('C20',
 
 add('C08',
     "Hypothesis over problems x gridding modes x file mode; oracles: "
-    "Richardson-extrapolated central differences of data.synthetic of fresh "
-    "simulations vs jvec; adjoint identity Re<w,Jv> = <J^T w,v>; "
+    "Richardson-extrapolated central differences of direct-solve forward "
+    "data (checker-assembled operator) vs jvec; adjoint identity Re<w,Jv> = <J^T w,v>; "
     "jtvec(residual*weights) vs gradient of a fresh simulation",
     "Exploration: (a) on generated 'same'-grid problems (mixed sources and "
     "receivers, six mappings, four anisotropy cases, NaN-masked data, in "
     "memory and file based) jvec is compared with the FD derivative of the "
-    "data (tolerance 1e-5 ||Jv||, measured <= 3e-7), the adjoint identity "
+    "data (tolerance 1e-4 ||Jv||, measured median 1e-8, max 7e-6), the adjoint identity "
     "is checked for random real v and complex w, and jtvec of the weighted "
     "residual must equal the gradient; (b) the adjoint identity is checked "
     "for every gridding mode {same, single, frequency, source, both} with "
     "generated gridding options.",
-    "Trusted: emg3d forward solves for the FD side (C01); data-space "
-    "vectors are zero where the observed datum is missing; non-converged "
+    "Trusted: vp/refop.py direct solves + emg3d source vectors/receiver "
+    "sampling for the FD side; data-space vectors are zero where the observed datum is missing; non-converged "
     "cases are inconclusive.")
 
 add('C09',
@@ -210,7 +216,9 @@ add('C12',
     "tol_gradient; every reported synthetic/misfit/gradient/jvec/jtvec is "
     "compared with the fresh-simulation reference, exceptions on "
     "documented operations are violations, and mutating a copy/reloaded "
-    "simulation must leave the original bit-identical.",
+    "simulation must leave the original bit-identical; in addition every "
+    "ordered pair of state-changing operations (quick 15x15, thorough "
+    "28x28) is enumerated after a gradient and followed by the queries.",
     "Trusted: fresh-simulation references computed once per process; "
     "thresholds 1e-6 (data, misfit) and 1e-3 of max-norm (gradient, jvec, "
     "jtvec; 1e2 x tol_gradient) - bit-identical on the repaired tree.")
@@ -357,7 +365,11 @@ add('C11',
     "synthetic, bfield and jvec slot, misfit and gradient must be "
     "bit-identical to the sequential run AND to a solve executed per task "
     "by the checker, so a slot filled from the wrong task is visible even "
-    "if all modes agree with each other.",
+    "if all modes agree with each other; a sequential run in a freshly "
+    "forked process and per-task references computed in reverse order "
+    "give two computation histories (state leaking between tasks); "
+    "layouts: local and UTM-like towed sources; per-task grids of "
+    "different sizes.",
     "Trusted: single-task simulations / solve_source as references. "
     "Completion orders are forced (bounded holds), not enumerated; a hold "
     "that times out only lowers distinct_nontrivial (logged order != "
